@@ -91,8 +91,9 @@ def detect(mid, plist=None):
         kind = "-"
         if r.returncode == 1 and lines:
             kind = "nofail" if lines[0].endswith("no-failing-input-found") else "VIOL"
-        elif r.returncode not in (0, 1):
+        elif r.returncode != 0:
             kind = "ERR%d" % r.returncode
+            res[p + "_err"] = (r.stderr or "")[-400:]
         res[p] = kind
         if kind != "-" and lines:
             # keep the replay note next to the seeded change
